@@ -172,8 +172,12 @@ def hasDim (s : St) : Dm → Bool
 
 def pickL {α} (idx : List Nat) (l : List α) : List α := idx.filterMap (fun i => l[i]?)
 
-/-- HHMMSS (hours unbounded) of a number of seconds -/
-def encStep (sec : Int) : Int := sec / 3600 * 10000 + sec % 3600 / 60 * 100 + sec % 60
+/-- HHMMSS (hours unbounded) of a number of seconds; a negative duration (a reversed window) is minus the HHMMSS of its
+magnitude, the form `getTimes` decodes (`Cal.tstepSeconds`) -/
+def encStep (sec : Int) : Int :=
+  let a := sec.natAbs
+  let h : Int := (a / 3600 * 10000 + a % 3600 / 60 * 100 + a % 60 : Nat)
+  if sec < 0 then -h else h
 
 /-- times `getTimes()` returns: from TFLAG when there is one, else from the attributes -/
 def getTimes (s : St) : List Int :=
@@ -283,6 +287,11 @@ def subsetPre (s : St) (keys : List String) : St :=
 /-- `subsetVariables(keys)` -/
 def opSubset (s : St) (keys : List String) : St := updatemeta (subsetPre s keys)
 
+/-- `list(OrderedDict.fromkeys(l))`: every name once, at its first place -/
+def dedupNames : List String → List String
+  | [] => []
+  | a :: l => a :: (dedupNames l).filter (· != a)
+
 def renamePre (s : St) (v : DVar) (old new : String) : St :=
   let varlist0 := prunedList s
   -- _copywith(variables=True): every variable copied, TFLAG included
@@ -290,6 +299,7 @@ def renamePre (s : St) (v : DVar) (old new : String) : St :=
   let s4 := dropVar (putVar s2 { v with name := new }) old          -- copyVariable(key=new); del variables[old]
   let nl := varlist0.map (fun k => if k == old then new else k)
   let nl := if nl.contains new then nl else nl ++ [new]
+  let nl := dedupNames nl            -- a variable renamed onto another listed one is listed once
   add2Varlist (setVarlist s4 []) (nl.filter (fun k => present s4 k && decide (k.length ≤ 16)))
 
 /-- `renameVariable(old, new)` -/
